@@ -106,7 +106,10 @@ public:
     shared_future(Fn &&fn)
         :_ptr(std::make_shared<future_internal>()) {
         _ptr->result_of(std::forward<Fn>(fn));
-        if (_ptr->pending()) _ptr->resolve_tracer.charge(_ptr);
+        //always register the tracer. If the future is already resolved (possibly by
+        //other thread), the registration is refused, which also synchronizes this thread
+        //with the resolver. Test of pending() gives no such guarantee
+        _ptr->resolve_tracer.charge(_ptr);
     }
 
 
